@@ -224,13 +224,16 @@ FollowStepOp(a, regions, fs, region, hole, start_ij) ==
       pass |-> fs.pass, npoints |-> npoints1, points |-> points1, visited |-> visited1,
       fin |-> (ij2 = start_ij /\ forward2 = start_forward)]
 
-\* second pass only (the first pass only counts the points): ring and visited flags, for the judge
-RECURSIVE FollowLoop(_, _, _, _, _, _)
-FollowLoop(a, regions, fs, region, hole, start_ij) ==
+\* the whole `while True` loop.  A boundary visits every (pixel, direction) state at most once before it is back
+\* at its start, so it ends within 4n steps; `fuel` makes the operator total (fin stays FALSE when it runs out)
+RECURSIVE FollowLoop(_, _, _, _, _, _, _)
+FollowLoop(a, regions, fs, region, hole, start_ij, fuel) ==
   LET f1 == FollowStepOp(a, regions, fs, region, hole, start_ij) IN
-  IF f1.fin THEN f1 ELSE FollowLoop(a, regions, f1, region, hole, start_ij)
+  IF f1.fin \/ fuel = 0 THEN f1 ELSE FollowLoop(a, regions, f1, region, hole, start_ij, fuel - 1)
+FollowFuel(a) == 4 * a.n + 4
+\* second pass only (the first pass only counts the points): ring and visited flags, for the judge
 Follow(a, regions, visited, ij, hole) ==
-  LET f == FollowLoop(a, regions, FollowInit(a, visited, ij, hole, 1, <<>>), regions[ij], hole, ij) IN
+  LET f == FollowLoop(a, regions, FollowInit(a, visited, ij, hole, 1, <<>>), regions[ij], hole, ij, FollowFuel(a)) IN
   [region |-> regions[ij], points |-> Append(f.points, f.points[1]), visited |-> f.visited]
 
 \* ---- _scan.  sc = [visited, region_done, polygons]
